@@ -161,6 +161,10 @@ def corpus(rng, tier):
         ops.append(f"enc simple {x}"); ops.append(f"enc u8 {x}"); ops.append(f"enc i8 {x - 128}")
     for b in (0, 0x3f800000, 0x7fc00000, 0x33800000, 0x477fe000, 0xff800000, 1):
         ops.append(f"enc f32 {b:08x}"); ops.append(f"enc f16 {b:08x}")
+    # half-precision items read through the wider accessors in every configuration (a type error without `half`, whatever the value: zero, minus zero,
+    # infinities and NaNs included)
+    for h in (0x0000, 0x8000, 0x7c00, 0xfc00, 0x7e00, 0xfe00, 0x7e01, 0x7d00, 0x3c00, 0x0001, 0x8001, 0x7bff):
+        ops += [f"dec f32 f9{h:04x}", f"dec f64 f9{h:04x}", f"dec f32 82f9{h:04x}01", f"dec t:u64 f9{h:04x}"]
     # explicit half-precision encoding just below / at / just above a rounding tie (13 bits are dropped: a tie is 0x1000 in them), sticky bits in
     # the lowest positions only, in the normal, subnormal and overflow ranges, both signs, and NaNs whose payload lies in the dropped bits
     for e_ in (0x38800000, 0x3f800000, 0x3c000000, 0x477fe000, 0x47000000, 0x33800000, 0x36a00000, 0x38000000, 0x387fc000):
@@ -305,6 +309,11 @@ def serde_corpus(rng, tier):
         ops.append(f"sde picky {W.enc(t).hex()}")
     for x in ["05", "f5", "f4", "f6", "f7", "6161", "20", "3903e7", "80", "a0", "4101", "fa3f800000", "fb3ff0000000000000", "c105", "1bffffffffffffffff", "9fff", "8205f6", "82f505"]:
         ops.append(f"sde picky {x}"); ops.append(f"sde picky2 {x}")
+    # visitors that return before their array / map is exhausted, then one more value from the same Deserializer: where the decoder stands afterwards
+    # does not depend on the configuration
+    for x in ["83010203", "9f010203ff05", "8005", "9fff05", "8101", "810105", "8161", "840102030405", "9f01ff", "98030102030" + "4", "83010203" * 1 + "07",
+              "a201020304", "bf01020304ff", "a005", "bfff05", "a1010205", "a201020304" + "06", "a10161"]:
+        ops.append(f"sde first {x}"); ops.append(f"sde firstm {x}")
     # a visitor that takes strings only as borrows from the input: a definite-length string is handed over borrowed everywhere
     for t in trees[:150 if q else 3000]:
         ops.append(f"sde borrowed {W.enc(t).hex()}")
